@@ -640,6 +640,19 @@ def kern_indep(U: Node) -> Static:
     )
 
 
+def kern_chain(U: Node) -> Static:
+    """kernel whose carry IS its choice (a random walk): the next step's density depends on the edited
+    choice, while the step's own return diff stays NoChange when only its input carry changes"""
+    return Static(
+        f"kern_chain({U.name})",
+        2,
+        [Site("s", U, lambda xp, args, env: (clipp(xp, args[0]),))],
+        lambda xp, args, env: (num(xp, env["s"]) * 1.0, args[1] if args[1] is not None else 0.0),
+        [],
+        unit=False,
+    )
+
+
 def kern_det() -> Static:
     return Static(
         "kern_det",
@@ -1232,7 +1245,7 @@ def catalog(tier: str, continuous: bool = True) -> list[Node]:
     progs += [
         vec_then_leaf(Vmap(f, 3, 0)), vec_then_leaf(Repeat(f, 3)), vec_then_leaf(Scan(kern(f), 3, xs=False)),
         leaf_then_vec(Vmap(f, 3, 0)), leaf_then_vec(Scan(kern(f), 2, xs=True)),
-        Scan(kern_indep(f), 3, xs=True), dep(Scan(kern_indep(f), 2, xs=True)),
+        Scan(kern_indep(f), 3, xs=True), dep(Scan(kern_indep(f), 2, xs=True)), Scan(kern_chain(f), 3, xs=True),
     ]
     # depth 2: outer over wrapped inner
     main = ("vmap", "repeat", "scan", "switch", "mask", "dimap", "or_else", "mix")
